@@ -31,9 +31,10 @@ type C15Case struct {
 	C17    *C17Case  `json:"c17,omitempty"`
 	C18    *C18Case  `json:"c18,omitempty"`
 	C20    *C20Case  `json:"c20,omitempty"`
+	Storm  *C18Storm `json:"c18storm,omitempty"`
 }
 
-var c15Families = []string{"c01", "c02", "c02", "c03", "c04", "c07", "c09", "c10", "c11", "c16", "c16rpc", "c17", "c18", "c18rpc", "c20"}
+var c15Families = []string{"c01", "c02", "c02", "c03", "c04", "c07", "c09", "c10", "c11", "c16", "c16rpc", "c17", "c18", "c18rpc", "c18storm", "c20"}
 
 func genC15(t *rapid.T) C15Case {
 	c := C15Case{Family: rapid.SampledFrom(c15Families).Draw(t, "family"), Yield: rapid.SliceOfN(rapid.Byte(), 1, 16).Draw(t, "yield")}
@@ -94,6 +95,9 @@ func genC15(t *rapid.T) C15Case {
 	case "c20":
 		x := genC20(t)
 		c.C20 = &x
+	case "c18storm":
+		x := genC18Storm(t)
+		c.Storm = &x
 	}
 	return c
 }
@@ -137,6 +141,8 @@ func execC15(t *testing.T, c C15Case) (v Verdict) {
 		inner = execC17(t, *c.C17)
 	case "c18":
 		inner = execC18(t, *c.C18)
+	case "c18storm":
+		inner = execC18Storm(t, *c.Storm)
 	case "c20":
 		inner = execC20(t, *c.C20)
 	}
